@@ -36,7 +36,7 @@ def polyline(draw, maxseg):
     U = [a, a] + [a + (b - a) * F(j, grid) for j in js] + [b, b]
     P = []
     for _ in range(nseg + 1):
-        pt = [draw(half()), draw(half())]
+        pt = [draw(half(-5, 5)), draw(half(-5, 5))]
         if P and pt == P[-1]:
             pt = [pt[0] + 1, pt[1]]
         P.append(pt)
@@ -47,7 +47,7 @@ def polyline(draw, maxseg):
 def polyline_pairs(draw, maxseg=4):
     A = draw(polyline(maxseg))
     B = draw(polyline(maxseg))
-    if draw(st.integers(0, 3)) == 0:
+    if draw(st.integers(0, 9)) == 0:
         # push B far away: disjoint boxes
         B["P"] = [[x + 40, y] for x, y in B["P"]]
     num = draw(st.sampled_from(["float", "npfloat"]))
